@@ -250,14 +250,14 @@ CHECKS["C11"] = {
     "rule": "one case = one parameter set (bits in {1..64} x capacity in {1,2,4,8,16,32[,64,128]} x rotating degree) or one Pedersen generator set (degree 1..6) or one concurrent-construction round; "
             "non-trivial = every generator of the set was compared with the reference derivation and entered the distinctness set, and the table was probed; distinct = distinct parameter tuples",
     "exhaustive": {"quick": False, "thorough": True},
-    "require": {"quick": {"parameter_sets_checked": 42, "pedersen_sets_checked": 6, "points_compared_with_derivation": 15000, "table_probes": 300, "fm_constructions_observed": 42, "hash_inputs_compared": 15000, "concurrent_constructions": 20},
+    "require": {"quick": {"parameter_sets_checked": 44, "pedersen_sets_checked": 6, "points_compared_with_derivation": 15000, "table_probes": 300, "fm_constructions_observed": 44, "hash_inputs_compared": 15000, "concurrent_constructions": 20, "iterator_positional_reads": 3000},
                 "thorough": {"parameter_sets_checked": 56, "pedersen_sets_checked": 6, "points_compared_with_derivation": 60000, "table_probes": 400, "fm_constructions_observed": 56, "hash_inputs_compared": 60000, "concurrent_constructions": 150}},
     "assumptions": COMMON_ASSUMPTIONS + ["'as specified' = the derivation written in the crate documentation and source comments at the pinned commit: SHAKE256(\"GeneratorsChain\" || 'G'/'H' || LE32(party)) in 64-byte blocks, SHA3-512(\"RISTRETTO_MASKING_BASEPOINT_k\"), value generator = Ristretto basepoint",
-                                         "thorough sweeps the whole stated space (7 bit lengths x capacities up to 128 x degrees 1..6 for the Pedersen part); racing *first* use of the cached blinding generators needs fresh processes and is exercised by C18"],
-    "level_text": "Sweeps every supported bit length against capacities up to 32 (thorough: 128) and every extension degree: each point returned by the public accessors equals an independent "
+                                         "thorough sweeps the whole stated space (7 bit lengths x capacities up to 128 x degrees 1..6 for the Pedersen part) plus wide tables with up to 2048 parties (party index beyond one byte); racing *first* use of the cached blinding generators needs fresh processes and is exercised by C18"],
+    "level_text": "Sweeps every supported bit length against capacities up to 32 (thorough: 128), tables with 512 (thorough: up to 2048) parties, and every extension degree: each point returned by the public accessors equals an independent "
                   "derivation from the documentation; all 2*n*c + d + 1 encodings of a set are pairwise distinct and none is the identity; compressed accessors are the encodings of the points; "
                   "the opaque precomputed table is probed with random and unit scalar vectors against the naive interleaved sum; over the free-module group the exact hash-to-group inputs and the "
-                  "points handed to the table constructor are observed; construction is repeated, reordered and run on 2..16 threads.",
+                  "points handed to the table constructor are observed; positional access on the generator iterators (nth, skip, step_by, size_hint, last, count, also after a partial walk) is compared with the collected vectors; construction is repeated, reordered and run on 2..16 threads.",
     "level_note": "The space is finite; the thorough tier enumerates it completely for the stated bounds. Trusted: refbp derivation, sha3, dalek hash-to-group.",
 }
 
